@@ -6,6 +6,7 @@ import (
 	"fmt"
 	"go/ast"
 	"go/token"
+	"go/types"
 	"log"
 	"os"
 	"path/filepath"
@@ -271,7 +272,7 @@ func (c *ruleguardChecker) WalkFile(f *ast.File) {
 		},
 		Pkg:         c.ctx.Pkg,
 		Types:       c.ctx.TypesInfo,
-		Sizes:       c.ctx.SizesInfo,
+		Sizes:       safeSizes{c.ctx.SizesInfo},
 		GoVersion:   ruleguard.GoVersion(c.ctx.GoVersion),
 		Fset:        c.ctx.FileSet,
 		TruncateLen: 100,
@@ -346,6 +347,23 @@ func ruleguardReportPos(f *ast.File, data *ruleguard.ReportData) token.Pos {
 		return data.Func.Pos()
 	}
 	return f.Pos()
+}
+
+// safeSizes makes Sizeof total: go/types panics ("assertion failed") on
+// types that involve type parameters, and rule filters such as
+// m["x"].Type.Size are evaluated for every matched expression.
+// Same idea as linter.CheckerContext.SizeOf.
+type safeSizes struct {
+	types.Sizes
+}
+
+func (s safeSizes) Sizeof(typ types.Type) (size int64) {
+	defer func() {
+		if r := recover(); r != nil {
+			size = 0
+		}
+	}()
+	return s.Sizes.Sizeof(typ)
 }
 
 func debugPrint(s string) {
